@@ -822,6 +822,141 @@ fn one_case(cx: &Ctx<'_>, index: u64, case_seed: u64, flavour: &'static str, sma
     }
 }
 
+
+// ---------------------------------------------------------------- C03: fault enumeration over subscription events
+
+/// C03's clause "... and each subscription event": single-root subscriptions over S1 (static) and over the dynamic
+/// schema built from the same model; the fault-free run gives the resolver calls of every event; EVERY (call, event)
+/// x applicable fault kind is injected alone (the fault is keyed by (response path, node id), so it belongs to one
+/// event only) and every response of the stream is compared with the reference executor's result for its own event
+/// alone with C03's comparator: data, exactly one error per failing field with its path and a location of the field,
+/// null at the nearest nullable position, every other event untouched.
+pub fn c03_subscription_events(run: &Run) {
+    use vh_schema::compare::{ErrMode, compare};
+    let ts = s1::model();
+    let st = AnySchema::S1(s1::schema());
+    let dy = match catch(|| dyn_schema(&ts)) {
+        Ok(Ok(s)) => Some(AnySchema::Dyn(s)),
+        _ => None,
+    };
+    let cases = run.scale(60, 1500);
+    let shards = n_shards(run);
+    std::thread::scope(|sc| {
+        for shard in 0..shards {
+            let ts = ts.clone();
+            let st = st.clone();
+            let dy = dy.clone();
+            sc.spawn(move || {
+                let mut r = shard_rng(run, 303, shard);
+                let mut i = shard;
+                while i < cases {
+                    i += shards;
+                    let flavour: &'static str = if dy.is_some() && r.chance(1, 3) { "dynamic" } else { "static" };
+                    let schema = if flavour == "dynamic" { dy.as_ref().unwrap() } else { &st };
+                    // one root field, no faults yet
+                    let ticks = r.chance(2, 3);
+                    let root = if ticks {
+                        Root { key: "a".into(), field: "ticks", n: 2 + r.below(2) as i64, kind: None, null_events: flavour == "static" }
+                    } else {
+                        Root { key: "a".into(), field: "events", n: 0, kind: *r.pick(&[None, Some("DOG"), Some("CAT")]), null_events: flavour == "static" }
+                    };
+                    let roots = vec![root];
+                    let doc = subscription_doc(&roots, &mut r, false);
+                    let printed = print(&doc, r.chance(1, 4));
+                    let world = sub_world(flavour, r.next_u64());
+                    let base_case = SubCase { flavour, roots, doc, printed, world, owners: BTreeMap::new() };
+                    let base = expected_of(&ts, &base_case);
+                    run.count("subscription_cases", 1);
+                    // positions: every resolver call of every event
+                    let mut singles: Vec<((String, u64), Fault)> = vec![];
+                    for evs in base.values() {
+                        for ev in evs {
+                            for c in &ev.calls {
+                                let Some(fd) = ts.field(&c.parent_ty, &c.field) else { continue };
+                                if flavour == "dynamic" && !run.feature("dynamic_subscription_event_faults") {
+                                    continue;
+                                }
+                                singles.push(((c.path.clone(), c.parent_id), Fault::Err));
+                                if !fd.ty.is_nonnull() {
+                                    singles.push(((c.path.clone(), c.parent_id), Fault::Null));
+                                }
+                            }
+                        }
+                    }
+                    let mut sets: Vec<Vec<((String, u64), Fault)>> = vec![vec![]];
+                    sets.extend(singles.iter().map(|s| vec![s.clone()]));
+                    // a few pairs (two events, or two positions of one event)
+                    for _ in 0..singles.len().min(6) {
+                        let a = r.pick(&singles).clone();
+                        let b = r.pick(&singles).clone();
+                        if a.0 != b.0 {
+                            sets.push(vec![a, b]);
+                        }
+                    }
+                    for set in sets {
+                        let mut case = base_case.clone();
+                        for (pos, k) in &set {
+                            case.world.node_faults.insert(pos.clone(), *k);
+                        }
+                        let exp = expected_of(&ts, &case);
+                        let obs = match catch(|| run_once(schema, &ts, &case, &mut FifoChooser)) {
+                            Ok(o) => o,
+                            Err(p) => {
+                                run.violation(&format!("C03-sub-panic:{:x}", case_hash(&case)), &format!("execute_stream panicked: {p}"), json!({"document": case.printed.text, "faults": faults_json(&case), "flavour": flavour}));
+                                continue;
+                            }
+                        };
+                        run.eval();
+                        run.count("subscription_event_faults_injected", set.len() as u64);
+                        run.count("faults_injected", set.len() as u64);
+                        let want = &exp[&case.roots[0].key];
+                        let mut problems: Vec<String> = vec![];
+                        if !obs.ended {
+                            problems.push("the response stream did not end".into());
+                        }
+                        // A dynamic subscription ends its stream after an event that failed at a non-null root field
+                        // (deliberate `break` in src/dynamic/subscription.rs). Whether later events are still delivered
+                        // is not part of C03 (nor of C27), so a shortfall is accepted exactly there: the last delivered
+                        // response belongs to an event whose reference data is null.
+                        let ended_after_root_failure = flavour == "dynamic"
+                            && !obs.responses.is_empty()
+                            && obs.responses.len() < want.len()
+                            && want[obs.responses.len() - 1].data.is_null();
+                        if obs.responses.len() != want.len() && !ended_after_root_failure {
+                            problems.push(format!("{} responses for {} events", obs.responses.len(), want.len()));
+                        }
+                        if ended_after_root_failure {
+                            run.count("dynamic_streams_ended_after_root_failure", 1);
+                        }
+                        for (k, ((o, _), w)) in obs.responses.iter().zip(want.iter()).enumerate() {
+                            run.count("subscription_event_responses_compared", 1);
+                            if !w.errors.is_empty() {
+                                run.nontrivial(rng::mix(&[case_hash(&case), k as u64]));
+                                run.count("executions_with_expected_errors", 1);
+                            }
+                            // a root-level failure of a non-null root field: the reference says data: null; an
+                            // implementation answering {key: null} for a nullable root is judged by the comparator
+                            let mode = if set.len() > 1 { ErrMode::Exact } else { ErrMode::Exact };
+                            for d in compare(o, w, &case.printed, mode) {
+                                problems.push(format!("event {k}: {d}"));
+                            }
+                        }
+                        run.seen("fault_classes", &format!("subscription-event:{flavour}:{}", set.iter().map(|s| s.1.name()).collect::<Vec<_>>().join("+")));
+                        if !problems.is_empty() {
+                            problems.truncate(4);
+                            run.violation(
+                                &format!("C03-sub:{:x}", case_hash(&case)),
+                                &format!("[subscription-event:{flavour}] faults {:?}: {} | doc: {}", set, problems.join("; "), case.printed.text),
+                                replay_json(&case, &json!({"c03_subscription_events": true}), &exp, &obs),
+                            );
+                        }
+                    }
+                }
+            });
+        }
+    });
+}
+
 // ---------------------------------------------------------------- (4) streamed query / mutation
 
 fn canonical(o: &Observed) -> (J, Vec<String>) {
